@@ -104,4 +104,50 @@ theorem run_lb (μ : MicroOp) (r : Regs) (m : LogBus) :
   | push k => simp [MicroOp.run, opFetch, dataAccess, lb_pushCell]
   | _ => simp [MicroOp.run, opFetch, dataAccess, inc16F, dec16F, incSP]
 
+/-! ### schedules on the recording bus -/
+
+/-- fold of `MicroOp.run` over a schedule, on the recording bus -/
+def runListL : List MicroOp → Regs → LogBus → Regs × LogBus
+  | [], r, m => (r, m)
+  | μ :: rest, r, m => runListL rest (μ.run r m).1 (μ.run r m).2
+
+/-- the accesses a schedule makes on the recording bus, each paired with the number of the
+    micro-operation (= machine cycle, counting from `k`) that made it; operand fetches are dropped:
+    what is kept of the log entries a micro-operation appended is what follows its `opFetch` -/
+def runTrace : List MicroOp → Nat → Regs → LogBus → List (Nat × Kind × Word)
+  | [], _, _, _ => []
+  | μ :: rest, k, r, m =>
+    (((μ.run r m).2.log.drop (m.log.length + (opFetch μ r).length)).map fun a => (k, a)) ++
+      runTrace rest (k + 1) (μ.run r m).1 (μ.run r m).2
+
+/-- the same computed on the flat bus from the tag function -/
+def planOf : List MicroOp → Nat → Regs → Flat → List (Nat × Kind × Word)
+  | [], _, _, _ => []
+  | μ :: rest, k, r, f =>
+    ((dataAccess μ r f).map fun a => (k, a)) ++ planOf rest (k + 1) (μ.run r f).1 (μ.run r f).2
+
+@[simp] theorem planOf_nil (k : Nat) (r : Regs) (f : Flat) : planOf [] k r f = [] := rfl
+@[simp] theorem planOf_cons (μ : MicroOp) (rest : List MicroOp) (k : Nat) (r : Regs) (f : Flat) :
+    planOf (μ :: rest) k r f =
+      ((dataAccess μ r f).map fun a => (k, a)) ++ planOf rest (k + 1) (μ.run r f).1 (μ.run r f).2 := rfl
+
+theorem runListL_flat (ops : List MicroOp) (r : Regs) (m : LogBus) :
+    (runListL ops r m).1 = (runList ops r m.flat).1 ∧ (runListL ops r m).2.flat = (runList ops r m.flat).2 := by
+  induction ops generalizing r m with
+  | nil => exact ⟨rfl, rfl⟩
+  | cons μ rest ih =>
+    simp only [runListL, runList_cons]
+    rw [run_lb μ r m]
+    exact ih _ _
+
+theorem runTrace_eq (ops : List MicroOp) (k : Nat) (r : Regs) (m : LogBus) :
+    runTrace ops k r m = planOf ops k r m.flat := by
+  induction ops generalizing k r m with
+  | nil => rfl
+  | cons μ rest ih =>
+    simp only [runTrace, planOf_cons]
+    rw [run_lb μ r m]
+    dsimp only
+    rw [ih, ← List.length_append, List.drop_left]
+
 end Tetro.BusLog
